@@ -35,7 +35,7 @@ def msgShapeB (check : Just → Bool) (m : Msg) : Bool :=
   | .quality => m.round == 0 && !m.value.isEmpty && true
   | .converge => decide (0 < m.round) && !m.value.isEmpty &&
       (match m.just with | some j => check j | none => false)
-  | .prepare => !m.value.isEmpty &&
+  | .prepare =>
       (if m.round == 0 then m.just.isNone else match m.just with | some j => check j | none => false)
   | .commit =>
       if m.value.isEmpty then m.just.isNone else (match m.just with | some j => check j | none => false)
